@@ -49,6 +49,8 @@ def expected_chunks(case, r):
                 continue
             if t == "del":
                 mods.append((off, n, ln, b""))
+            elif isinstance(patch, bytes):
+                mods.append((off, n, ln, patch))        # a bytes patch is its own listing: no need to see it pass through insert()
             else:
                 if n not in r["mod_code"]:
                     return None
@@ -62,7 +64,7 @@ class C01(IRProp):
     id = "C01"
     prop_file = "Properties/C01.v"
     tag = "c01"
-    genopts = dict(with_cfi=False, with_lead=True)
+    genopts = dict(with_cfi=False, with_lead=True, same_size_data=0.5)
     trusted_base = IRProp.base_trusted
     assumptions = ["modifications of one block do not overlap (resolve_offsets asserts it)",
                    "theorem C01_apply_modifications excludes work lists that delete a whole prefix of a block and then edit again at its new "
